@@ -58,6 +58,14 @@ package bytecode
 //@   requires uint64(y) & opmask() == 0
 //@   ensures[opcode_kept] (x|y).OpCode() == x.OpCode()
 //
+// The VM keys iterator contexts by (call depth << 15) ^ id (vm.hashContext): distinct (depth, id)
+// pairs get distinct keys as long as the id fits 15 bits - which EncodeSrc's range guarantees for a
+// non-negative operand - and the depth fits the remaining 49.
+//@ lemma context_key_injective [C02,C15]
+//@   vars d1 uint64, i1 uint64, d2 uint64, i2 uint64
+//@   requires i1 < 32768 && i2 < 32768 && d1 < 562949953421312 && d2 < 562949953421312 && (d1 << 15) ^ i1 == (d2 << 15) ^ i2
+//@   ensures[injective] d1 == d2 && i1 == i2
+//
 // The field masks partition the word: operand fields and opcode do not overlap.
 //@ lemma fields_disjoint [C15]
 //@   vars dummy int
